@@ -387,6 +387,10 @@ def run_property(pid, tier, seed, escalate=False, replay=None):
         cov["distinct_nontrivial"] = 0
         cov["samples"] = [replay["case"]]
         return {"failures": failures, "coverage": cov}
+    import fingerprint
+    fp_mult, fp_changed = fingerprint.multiplier(pid)
+    cov["source_fingerprints_changed"] = fp_changed
+    cov["budget_multiplier"] = fp_mult
     for stream in prop["streams"]:
         comp = stream["component"]
         # corpus (minimized past disagreements) first
@@ -399,7 +403,7 @@ def run_property(pid, tier, seed, escalate=False, replay=None):
             cases = stream["explicit"](tier)
             reps = engine.run_cases(comp, seed, len(cases), stream["params"], explicit=cases)
         else:
-            n = stream[tier] * (3 if escalate else 1)
+            n = stream[tier] * (3 if escalate else 1) * (fp_mult if tier == "quick" else 1)
             reps = engine.run_cases(comp, seed, n, stream["params"])
         _judge_stream(stream, reps, failures, cov, stats)
         new = failures[before:]
